@@ -8,6 +8,8 @@ import round_cases as rnd
 def poly_cases(ctx, count):
     """data = P(t) along the kick direction on the full grid, deg P < it"""
     rng = ctx.rng
+    import random
+    frng = random.Random(ctx.seed * 1000003 + 105)      # own PRNG: the far cases do not shift the draws of the older streams
     cases = []
     for i in range(count):
         n = rng.choice(range(8, 26))
@@ -24,8 +26,8 @@ def poly_cases(ctx, count):
         if i % 5 == 4:
             # far offsets: the integer part of n/2+offset is 0, 1 (stencil leaving the table at the bottom) or size-2, size-1, size
             # (top; guard's upper edge) - cells whose whole stencil READS inside the grid exist there too
-            jd = rng.choice([0, 1, n - 2, n - 1, n])
-            o = float(jd - n // 2) + rng.randint(1, 15) / 16.0
+            jd = frng.choice([0, 1, n - 2, n - 1, n])
+            o = float(jd - n // 2) + frng.randint(1, 15) / 16.0
         data = [0.0] * (nb * n * n)
         for b in range(nb):
             for x in range(n):
@@ -435,10 +437,10 @@ def run(ctx):
                 "coefficient samples in [0,1); RotationMap cases n 6..14, it 1..4, angles 0, +-small, pi/2, pi, random, shifted extents, precomputed and on-the-fly map, polynomial x^k y^l and random data. Non-trivial: non-zero shift on non-zero data / degree>=1 with fractional offset / it>1 and f!=0.")
     coq = vp_coq.full_check("C02", ctx, fams=("kick", "round"))
     nk = 120 if ctx.quick() else 3000
-    cases = kc.gen_cases(ctx, nk, streams=("exact", "whole", "tol", "whole")) + kc.edge_cases(ctx, 52 if ctx.quick() else 800)
-    cases += kc.ulp_cases(ctx, 16 if ctx.quick() else 400)
-    pc = poly_cases(ctx, 60 if ctx.quick() else 1500) + ulp_poly_cases(ctx, 48 if ctx.quick() else 1500)
-    seqs = kc.seq_cases(ctx, 16 if ctx.quick() else 300)
+    cases = kc.gen_cases(ctx, nk, streams=("exact", "whole", "tol", "whole")) + kc.with_rng(ctx, 101, kc.edge_cases, ctx, 52 if ctx.quick() else 800)
+    cases += kc.with_rng(ctx, 102, kc.ulp_cases, ctx, 16 if ctx.quick() else 400)
+    pc = poly_cases(ctx, 60 if ctx.quick() else 1500) + kc.with_rng(ctx, 103, ulp_poly_cases, ctx, 48 if ctx.quick() else 1500)
+    seqs = kc.with_rng(ctx, 104, kc.seq_cases, ctx, 16 if ctx.quick() else 300)
     steps = [s_ for q in seqs for s_ in q.steps]
     res = kc.run_cases(ctx, cases + pc + seqs)
     pc = pc + [s_ for s_ in steps if hasattr(s_, "coef")]
